@@ -1,12 +1,32 @@
 PROP = dict(
     properties="Properties/C09.v",
     harness_mods=["Harness/C09.v"],
-    runs=[dict(cmd="c09", quick=36, thorough=1200)],
-    trusted_base=["hand-written Gallina model coq/Store/Model.v of pkg/core/storage + dao.Simple.Seek/SeekAsync (tied by correspondence)"],
-    assumptions=["lock regions of MemCachedStore are atomic; a Bolt read transaction / LevelDB iterator is a snapshot"],
-    modelled="layered store modelled and proved; tied to Go by differential evaluation only",
+    runs=[dict(cmd="c09", quick=36, thorough=1200, timeout=6000)],
+    trusted_base=[
+        "hand-written Gallina model coq/Store/Model.v + Store/Conc.v of pkg/core/storage (MemCachedStore, MemoryStore, Bolt/LevelDB range seeks) "
+        "and of dao.Simple.Seek/SeekAsync and the Storage.Find iterator keys (tied by correspondence only); it describes the code with "
+        "fixes/F1 and fixes/F2 applied",
+        "harness gate store (parks goroutines at the entry of Seek and entry/exit of PutChangeSet of the base store to play a chosen schedule; delegates unchanged)",
+        "Go-side ordered-map oracle in harness/c09*.go: only labels the shape of a deviation for known_findings matching; the verdict is Coq's",
+    ],
+    assumptions=[
+        "lock regions of MemCachedStore are atomic; a Bolt read transaction, a LevelDB iterator and MemoryStore.seek are atomic snapshots",
+        "bbolt and goleveldb implement ordered byte-string maps",
+        "reader/Persist interleavings: one shared layer over a base store, full-depth seeks; private layers are not written while a seek on them is pending (violated by F10, not checked)",
+    ],
+    modelled="layered store, base range seeks, dao trimming and Persist lock regions modelled and proved; tied to Go by differential evaluation "
+             "(op histories on three backends, forced schedules); Go maps as sorted association lists, cont/ctx protocol as a lazily consumed list, SeekGC not modelled",
 )
 META = dict(
-    text="(draft)",
-    note="(draft)",
+    text="Proved in Coq for all stacks (any number of shared/private layers), all three backends, all op sequences and all ranges "
+         "(prefix, start, direction, search depth, trimming on/off): Get and Seek/SeekAsync/dao.Seek/dao.SeekAsync/Storage.Find keys equal lookup / range_query on ONE "
+         "ordered map (sorted, duplicate-free, nothing omitted); MemoryStore, LevelDB and Bolt seeks agree; every flush (each of Persist's three lock regions, PersistPrivate) "
+         "leaves that map and hence every full-depth answer unchanged. The model follows the mechanism of performSeek and is tied to the Go code by differential "
+         "evaluation of op histories on MemoryStore/BoltDB/LevelDB and of forced reader/writer/Persist schedules. *Partial*: reader atomicity is proved only for schedules "
+         "without a new Persist swap between the reader's snapshot and its lower-store read; with one the statement is false for the code (finding F41, listed, reproduced "
+         "deterministically). Findings F1 and F2 are rediscovered by the check and listed until their patches (fixes/F1-*.diff, fixes/F2-*.diff, verified) are committed; the model "
+         "describes the repaired code. The F10 data race is not checked.",
+    note="Trusted: Coq kernel and vm_compute, the Go harness (incl. its gate store used to force schedules), the orchestration script; the model is hand-written and tied to the code by "
+         "correspondence only. Assumed: atomicity of lock regions, snapshot semantics of Bolt transactions/LevelDB iterators, correctness of bbolt/goleveldb. Interleavings are at "
+         "lock-region granularity for one shared layer over a base store; real goroutine schedules beyond the forced ones are not covered.",
 )
